@@ -71,6 +71,14 @@ check("C04", "other",
       E2_NOTE + " Additionally trusts lib/miniregex.py (validated against the regex crate on concrete samples each run).",
       E2_TECH, "E2", "DESIGN.md §3 C04")
 
+check("C16", "other",
+      "The merge functions themselves, with fully symbolic layers: per-key and per-environment-variable precedence of "
+      "with_defaults_from / with_overrides_from, associativity (three layers), empty layer is the identity, append/prepend "
+      "accumulate in order, DocumentConfig scalars and nested defaults. All presence/value assignments of the scalar keys; "
+      "environments of <= 2/3 variables per layer. The 4-layer statement follows from these laws; where the layers are applied "
+      "(parser, CLI, executor) is not claimed.",
+      E2_NOTE, E2_TECH, "E2", "DESIGN.md §3 C16")
+
 NA_LIST = [
     ("C07", "Cram parser: every clause is about string contents inside one regex-calling function; out of reach of Kani (heap/regex) and of control-flow-only MIR execution."),
     ("C12", "Shell-state carry-over is implemented by a bash script; no encoding of bash semantics is available here."),
